@@ -168,6 +168,7 @@ pub struct Outcome {
     pub multi_page_freelist: bool,
     pub churn_readers: u64,
     pub exactness_checks: u64,
+    pub churn_end: usize,
 }
 
 struct State<'c> {
@@ -292,6 +293,7 @@ pub fn run_case(c: &Case, path: &std::path::Path) -> Outcome {
             multi_page_freelist: false,
             churn_readers: 0,
             exactness_checks: 0,
+            churn_end: 0,
         },
     };
     let r = util::catch(|| -> Result<(), String> {
@@ -370,13 +372,34 @@ pub fn run_case(c: &Case, path: &std::path::Path) -> Outcome {
                     n
                 }));
             }
-            std::thread::sleep(std::time::Duration::from_millis(800));
+            // the writer keeps committing while they do (readers of different snapshots come and go)
+            let t0 = std::time::Instant::now();
+            let mut early_stop = false;
+            while t0.elapsed().as_millis() < 800 && t < c.txs / 2 {
+                if !st.step(&db, c, path, t)? {
+                    early_stop = true;
+                    break;
+                }
+                t += 1;
+            }
             stop.store(true, std::sync::atomic::Ordering::Relaxed);
             let mut total = 0;
             for h in hs {
-                total += h.join().unwrap_or(0);
+                match h.join() {
+                    Ok(n) => total += n,
+                    Err(_) => st.o.violations.push(("space:reader-thread-panicked".into(), "a thread that only opens and closes read-only transactions panicked".into())),
+                }
             }
             st.o.churn_readers = total;
+            st.o.churn_end = t;
+            let left = db.verif_state().readers;
+            if !left.is_empty() {
+                st.o.violations.push(("space:reader-still-registered-after-all-readers-closed".into(), format!("all reader threads have been joined but the list of open readers is {:?}", left)));
+                early_stop = true;
+            }
+            if early_stop || !st.o.violations.is_empty() {
+                return Ok(());
+            }
         }
         while t < c.txs {
             if has_reader && t == c.reader.0 {
@@ -450,6 +473,11 @@ fn judge(c: &Case, o: &mut Outcome) {
     // hand-over: the pages freed by the previous transaction stay pending one transaction longer
     let bound = if tight { l + 2 * d + 8 } else { 4 * (l + d) + 16 };
     let mut c = c.clone();
+    if o.churn_end > 0 {
+        // while the reader threads were running, pages were legitimately pinned: judged like a reader held
+        // from the start to the moment the threads were joined
+        c.reader = (0, o.churn_end);
+    }
     if !c.readers.is_empty() {
         // judged like one reader held from the first open to the last close
         let a = c.readers.iter().map(|r| r.0).min().unwrap();
